@@ -102,6 +102,13 @@ claim("C20",
       "alphabet (non-bijective for lowercase labels: recorded known finding); representative-block builders mutate only fresh copies. Numerical convexity and the median choice are not decided.",
       COMMON_NOTE, "role typing (abstract interpretation) + sibling agreement + all-paths counting + constant folding", "DESIGN.md section 3 C20")
 
+claim("C10",
+      "Static analysis (partial, exact): purity of metadata/collection merges and conflict raising; direct stores into the target library only after every step that can refuse "
+      "(the remaining non-atomicity of the nuclide loop is a recorded known finding); write-once properties for group structures; merge-or-insert of nuclides; symmetric fix-ups; "
+      "macroscopic sums typed with role generators (density, micro datum, multiplier): linear in each and additive over ONE composition; derived quantities equal to their defining "
+      "sums in dependency order. Merge-order independence of values is not decided.",
+      COMMON_NOTE, "effect ordering + purity + role typing (abstract interpretation) + table agreement", "DESIGN.md section 3 C10")
+
 NA_REASON = {}
 
 
